@@ -70,8 +70,11 @@ class StandardRequestHandler(ControlRequestHandler):
 
         # ...but the block handler does not. In this case, first we split the descriptors into two
         # collections: fixed descriptors (for the ROM) and runtime descriptors.
-        fixed_descriptors       = DeviceDescriptorCollection()
-        runtime_descriptors     = DeviceDescriptorCollection()
+        # Note that iterating over our descriptors already yields the language descriptor (added automatically
+        # if the user didn't provide one); the split collections must not each grow one of their own, or both
+        # handlers would answer a request for string descriptor zero.
+        fixed_descriptors       = DeviceDescriptorCollection(automatic_language_descriptor=False)
+        runtime_descriptors     = DeviceDescriptorCollection(automatic_language_descriptor=False)
         has_runtime_descriptors = False
         for type_number, index, descriptor in self.descriptors:
             if isinstance(descriptor, bytes):
